@@ -74,7 +74,7 @@ struct packet {
 
 enum { OK = 1, INCOMPLETE = 0, BAD = -1 };
 // leniencies a receiver may apply without misreading anything (used only where stated by a harness)
-enum { L_OMIT_PROPS = 1 /* property length absent at the end of the packet */, L_TRAILING = 2 /* bytes after the property list */, L_DUP_PROPS = 4 /* repeated property */ };
+enum { L_OMIT_PROPS = 1 /* property length absent at the end of the packet */, L_TRAILING = 2 /* bytes after the property list */, L_DUP_PROPS = 4 /* repeated property */, L_RESERVED = 8 /* reserved bits of the CONNACK acknowledge flags */ };
 
 struct rd {
   const uint8_t* p; size_t n; size_t i; bool bad;
@@ -159,7 +159,7 @@ inline int decode(const uint8_t* p, size_t n, packet& k, int L = 0) {
       return (!r.bad && r.done()) ? OK : BAD;
     }
     case CONNACK: {                                       // 3.2
-      uint8_t f = r.u8(); if (r.bad || (f & 0xFE)) return BAD;
+      uint8_t f = r.u8(); if (r.bad || ((f & 0xFE) && !(L & L_RESERVED))) return BAD;
       k.session_present = f & 1; k.rc = r.u8(); k.has_rc = true; if (r.bad) return BAD;
       if (!parse_props(r, X_CONNACK, k.props, k.props_present, false, L)) return BAD;
       return (r.done() || (L & L_TRAILING)) ? OK : BAD;
